@@ -79,19 +79,31 @@ class SetupCfgWriter(DependencyWriter):
         the output newline manually.
         """
         clean_lines = [s.strip() for s in original_lines]
-
+        # only look for the dependencies below the `install_requires` key: the text of
+        # a dependency may occur elsewhere in the file (e.g. in `extras_require`)
+        key_idx = next(
+            (
+                idx
+                for idx, line in enumerate(clean_lines)
+                if line.startswith("install_requires")
+            ),
+            0,
+        )
         if newline_separated := len(defined_dependencies.split("\n")) > 1:
             last_dep_line = defined_dependencies.split("\n")[-1]
             dep_sep = "\n"
         else:
             # deps are in same line as install_requires key separated by commas
-            last_dep_line = [
-                line for line in clean_lines if line.endswith(defined_dependencies)
-            ][-1]
+            last_dep_line = clean_lines[key_idx]
             dep_sep = ","
+            if any("," in str(dep.requirement) for dep in dependencies_to_add):
+                # a requirement with several version clauses cannot be written
+                # into a comma-separated list
+                logger.debug("Unable to add dependencies to setup.cfg file.")
+                return None
 
         try:
-            last_dep_idx = clean_lines.index(last_dep_line)
+            last_dep_idx = clean_lines.index(last_dep_line, key_idx)
         except ValueError:
             # we were unable to find the last req line due to some formatting issue
             logger.debug("Unable to add dependencies to setup.cfg file.")
